@@ -9,6 +9,7 @@ pub mod ev;
 pub mod kvvmc;
 pub mod monitors;
 pub mod nodemc;
+pub mod nodevel;
 pub mod props;
 pub mod scenario;
 pub mod secretstore;
